@@ -67,6 +67,11 @@ def run(report, db, tier):
     if not report.violations:
         report.floor('play write sites checked', n, 3)
     no_drop(report, db, S, M)
+    from ..common import borrow
+    from . import c03
+    borrow(report, 'R11.1v', "the id echoed by the keep-alive / teleport arms survives the VarInt codec: what read returns, send accepts (C03's rules)",
+           lambda rid, c: c.startswith(('read:', 'varlong:', 'send:negative')),
+           lambda sub: c03.run(sub, db, tier))
     # "without disturbing later ones": a frame takes exactly its own bytes
     from .c01 import isolation
     isolation(report, db, cg, S, M, rule_id='R11.3i')
